@@ -331,6 +331,23 @@ def _bracketed(seg):
             return False
     return True
 
+def _qbracketed(seg):
+    started = False
+    for op in seg:
+        if op[0] == "start":
+            if started:
+                return False
+            started = True
+        elif op[0] == "stop":
+            if not started:
+                return False
+            started = False
+        elif op[0] == "enqueue":
+            pass
+        elif not started:
+            return False
+    return True
+
 def mon_spec(md_lib, cfg, ops, impl, stats, r=None):
     """for definitions in the core fragment (Spec.coreb, proved to imply Spec.core) and histories of start / stop /
     process_event whose behaviours only observe: the implementation's trace must be the specification function of
@@ -365,18 +382,18 @@ def mon_spec(md_lib, cfg, ops, impl, stats, r=None):
             continue
         if not all(_plain(o) for o in seg):
             # histories with enqueue_event / execute_queued_events: the specification with a pending list (proved for back)
-            if base in ("back", "back_fct") and all(_qplain(o) for o in seg):
+            if (base in ("back", "back_fct") or mp11) and all(_qplain(o) for o in seg):
                 queued = True
             else:
                 continue
-        if mp11 and not _bracketed(seg):
+        if mp11 and not (_qbracketed(seg) if queued else _bracketed(seg)):
             continue
         if any(k >= len(impl) for k in range(start, start + len(seg))):
             continue
         if any(("ESC" in impl[start + i]) or any(l.startswith("BAD") for l in impl[start + i]) for i in range(len(seg))):
             continue
         inp = msmgen.sx_mdef(md, md_lib) + "\n" + "\n".join(msmgen.sx_op(o) for o in seg) + "\n"
-        args = [corr.MODEL, "qspec", str(pol)] if queued else [corr.MODEL, "spec", "1" if mp11 else "0", str(pol)]
+        args = [corr.MODEL, "qspec_mp11" if mp11 else "qspec", str(pol)] if queued else [corr.MODEL, "spec", "1" if mp11 else "0", str(pol)]
         pr = subprocess.run(args, input=inp, capture_output=True, text=True, timeout=60)
         if pr.returncode != 0 or pr.stdout.startswith("NOTCORE"):
             stats.dist[("spec oracle", "outside the core fragment")] += 1
